@@ -1,6 +1,6 @@
 (* C07 - a command is done exactly when nothing more can happen.  Statements only. *)
 From Coq Require Import List Arith Bool.
-From Crux Require Import Rt.Lang Rt.Rt Rt.Host Rt.Check Rt.Frame Rt.Props Rt.HostProps.
+From Crux Require Import Rt.Lang Rt.Rt Rt.Host Rt.Check Rt.Frame Rt.Props Rt.HostProps Rt.Evict.
 Import ListNotations.
 
 (* Full statement (kept visible; only parts of it are proved so far): at every settled state of every
@@ -43,6 +43,20 @@ Proof.
   rewrite Es, Ea. subst g. rewrite Ep. cbv zeta.
   destruct (getd false (length (woken H)) _ || holds _ _); reflexivity.
 Qed.
+
+(* (1) Eviction soundness, for every fuel, heap, command and task: when run_task discards a task as
+   unwakeable (Cancelled) the task is blocked on a one-shot request whose sender is gone, on a join!/
+   select! all of whose requests are gone or already answered, or is a hosting task (that leaf is not
+   covered yet) - never on a stream, a join handle, a pending self-wake or a request that can still be
+   answered.  Rests on poll_registers: a Pending poll leaves the poll's waker registered in every open
+   cell of the future's wait-set (or has set the woken flag). *)
+Theorem C07_poll_registers : forall fuel c w fs H fs' H',
+  poll fuel c w fs H = Some (Pend fs', H') -> post w fs' H'.
+Proof. intros fuel. exact (poll_registers fuel). Qed.
+Theorem C07_evict_sound_partial : forall fuel cid slot H H',
+  run_task (S fuel) cid slot H = Some (Cancelled, H') ->
+  exists t, slab_get slot (gcmd cid H') = Some t /\ evictable (t_fs t).
+Proof. exact evict_sound. Qed.
 
 Example C07_nonvacuous :
   direct FUEL0 (c_req_send 1 0 9) [AEffects; AIsDone; ADropReq 1 0 0; AIsDone]
